@@ -132,7 +132,7 @@ fn byte_mutations_of_change_columns_never_panic() {
             Err(_) => continue,
         };
         for pos in col.clone() {
-            for v in [0x00u8, 0x01, 0x05, 0x7f, 0x7e, 0x80, 0xff, 0x40, 0x3f] {
+            for v in 0u8..=255 {
                 let mut b = orig.clone();
                 if b[pos] == v {
                     continue;
@@ -157,31 +157,62 @@ fn all_columns(doc: &[u8]) -> Vec<(bool, u32, std::ops::Range<usize>)> {
     let mut pos = 9;
     let _chunk_len = read_uleb(doc, &mut pos);
     let n_actors = read_uleb(doc, &mut pos);
-    for _ in 0..n_actors { let l = read_uleb(doc, &mut pos) as usize; pos += l; }
-    let n_heads = read_uleb(doc, &mut pos) as usize; pos += 32 * n_heads;
-    let read_meta = |pos: &mut usize| { let n = read_uleb(doc, pos); (0..n).map(|_| { let spec = read_uleb(doc, pos) as u32; let len = read_uleb(doc, pos) as usize; (spec, len) }).collect::<Vec<_>>() };
+    for _ in 0..n_actors {
+        let l = read_uleb(doc, &mut pos) as usize;
+        pos += l;
+    }
+    let n_heads = read_uleb(doc, &mut pos) as usize;
+    pos += 32 * n_heads;
+    let read_meta = |pos: &mut usize| {
+        let n = read_uleb(doc, pos);
+        (0..n)
+            .map(|_| {
+                let spec = read_uleb(doc, pos) as u32;
+                let len = read_uleb(doc, pos) as usize;
+                (spec, len)
+            })
+            .collect::<Vec<_>>()
+    };
     let change_meta = read_meta(&mut pos);
     let ops_meta = read_meta(&mut pos);
     let mut out = vec![];
-    for (spec, len) in change_meta { out.push((true, spec, pos..pos + len)); pos += len; }
-    for (spec, len) in ops_meta { out.push((false, spec, pos..pos + len)); pos += len; }
+    for (spec, len) in change_meta {
+        out.push((true, spec, pos..pos + len));
+        pos += len;
+    }
+    for (spec, len) in ops_meta {
+        out.push((false, spec, pos..pos + len));
+        pos += len;
+    }
     out
 }
 
 fn rich_doc() -> Vec<u8> {
-    use automerge::{ObjType, transaction::Transactable};
+    use automerge::{transaction::Transactable, ObjType};
     let mut doc = Automerge::new().with_actor(ActorId::from([1u8; 16]));
     let mut tx = doc.transaction();
     let l = tx.put_object(ROOT, "list", ObjType::List).unwrap();
-    tx.insert(&l, 0, 1).unwrap(); tx.insert(&l, 1, "two").unwrap(); tx.insert(&l, 2, 3.5).unwrap();
+    tx.insert(&l, 0, 1).unwrap();
+    tx.insert(&l, 1, "two").unwrap();
+    tx.insert(&l, 2, 3.5).unwrap();
     let t = tx.put_object(ROOT, "text", ObjType::Text).unwrap();
     tx.splice_text(&t, 0, 0, "hello world").unwrap();
-    tx.mark(&t, automerge::marks::Mark::new("bold".into(), true, 0, 5), automerge::marks::ExpandMark::Both).unwrap();
-    tx.put(ROOT, "c", automerge::ScalarValue::counter(5)).unwrap();
+    tx.mark(
+        &t,
+        automerge::marks::Mark::new("bold".into(), true, 0, 5),
+        automerge::marks::ExpandMark::Both,
+    )
+    .unwrap();
+    tx.put(ROOT, "c", automerge::ScalarValue::counter(5))
+        .unwrap();
     tx.commit();
     for i in 1..3u8 {
         let mut other = doc.fork().with_actor(ActorId::from([i + 1; 16]));
-        let mut tx = other.transaction(); tx.put(ROOT, format!("k{i}"), "hello").unwrap(); tx.increment(ROOT, "c", 2).unwrap(); tx.delete(&l, 0).unwrap(); tx.commit();
+        let mut tx = other.transaction();
+        tx.put(ROOT, format!("k{i}"), "hello").unwrap();
+        tx.increment(ROOT, "c", 2).unwrap();
+        tx.delete(&l, 0).unwrap();
+        tx.commit();
         doc.merge(&mut other).unwrap();
     }
     doc.save()
@@ -194,13 +225,20 @@ fn byte_mutations_of_all_columns_never_panic() {
     let mut panics = std::collections::BTreeSet::new();
     for (is_change, spec, col) in all_columns(&orig) {
         for pos in col.clone() {
-            for v in [0x00u8, 0x01, 0x05, 0x7f, 0x7e, 0x80, 0xff, 0x40, 0x3f] {
+            for v in 0u8..=255 {
                 let mut b = orig.clone();
-                if b[pos] == v { continue; }
+                if b[pos] == v {
+                    continue;
+                }
                 b[pos] = v;
                 fix_checksum(&mut b);
-                let r = std::panic::catch_unwind(|| { let _ = Automerge::load(&b); let _ = Automerge::load_unverified_heads(&b); });
-                if r.is_err() { panics.insert((is_change, spec)); }
+                let r = std::panic::catch_unwind(|| {
+                    let _ = Automerge::load(&b);
+                    let _ = Automerge::load_unverified_heads(&b);
+                });
+                if r.is_err() {
+                    panics.insert((is_change, spec));
+                }
             }
         }
     }
